@@ -118,6 +118,11 @@ func (s authStateNone) receiveDHCommitMessage(c *Conversation, msg []byte) (auth
 }
 
 func (s authStateAwaitingRevealSig) receiveDHCommitMessage(c *Conversation, msg []byte) (authState, messageWithHeader, error) {
+	// a commit that cannot be read must not replace the one we have
+	if err := new(dhCommit).deserialize(msg); err != nil {
+		return s, nil, err
+	}
+
 	//As per spec, we forget the old DH-commit (received before we sent the DH-Key)
 	//and use this one, so we forget all the keys
 	c.ake.keys = c.ake.keys.wipeAndKeepRevealKeys()
